@@ -74,15 +74,19 @@ type effectSet struct {
 	locals     map[string]bool // sites of the function's own local allocs written
 	writesArgs bool            // may write through pointer arguments
 	sync       bool            // contains a synchronisation / blocking operation
+	nonFresh   map[string]bool // classes written other than through a direct field of an object allocated right here
 }
 
-func newEffectSet() *effectSet { return &effectSet{cls: map[string]bool{}, locals: map[string]bool{}} }
+func newEffectSet() *effectSet {
+	return &effectSet{cls: map[string]bool{}, locals: map[string]bool{}, nonFresh: map[string]bool{}}
+}
 
 func (e *effectSet) union(o *effectSet) {
 	if o.all {
 		e.all = true
 	}
 	for c := range o.cls {
+		e.nonFresh[c] = true
 		e.cls[c] = true
 	}
 	if o.writesArgs {
@@ -145,6 +149,15 @@ func (an *Analysis) instrEffects(in ssa.Instruction, es *effectSet) {
 			es.all = true
 		} else {
 			es.cls[c] = true
+			fresh := false
+			if fa, ok := x.Addr.(*ssa.FieldAddr); ok {
+				if _, isAlloc := fa.X.(*ssa.Alloc); isAlloc {
+					fresh = true
+				}
+			}
+			if !fresh {
+				es.nonFresh[c] = true
+			}
 			if strings.HasPrefix(c, "d:") || strings.HasPrefix(c, "e:") {
 				es.writesArgs = true
 			}
